@@ -197,6 +197,13 @@ class SymSpec(object):
         the very symbols the code obtains when it makes the same call)"""
         return getattr(symnp, name)(arr, axis=axis, **kw)
 
+    def op(self, name, x, y):
+        """the cell NumPy's binary ufunc np.<name> computes from the cells x and y (uninterpreted in the model)"""
+        return symnp._wrap_elem(symnp.ufunc2_term(name, x, y), "real")
+
+    def nan(self):
+        return symnp._wrap_elem(symnp.NAN, "real")
+
     def prod(self, sizes):
         """the product of extents (remembers its factors: an array of that extent can be split back into them)"""
         return symnp.prod(list(sizes))
